@@ -1,6 +1,7 @@
 import RoaringModel.Lemmas.CIterLemmas
 import RoaringModel.Lemmas.IterRangeLemmas
 import RoaringModel.Lemmas.IterSortedLemmas
+import RoaringModel.Lemmas.SpecIterLemmas
 /-!
 # C03 — 32-bit iteration is an exact ascending double-ended cursor (property theorems)
 
@@ -175,6 +176,30 @@ theorem C03_len (it : Iter) (h : IterWF it) : it.len? = some it.rem.length :=
     `next_back` descending values, each element once across both ends (they pop the two ends of one list). -/
 theorem C03_ascending (it : Iter) (h : IterWF it) : it.rem.Pairwise (· < ·) :=
   Iter.rem_sorted cKernel it h.1
+
+/-- **front drain.** `k` calls of `next` on `iter()` yield the `k` smallest elements in ascending order and
+    `None` from then on; what remains is the rest of the element list. -/
+theorem C03_drain_front (b : Bitmap) (h : BitmapOK b) (k : Nat) :
+    (Iter.run (Bitmap.iter b) (List.replicate k .next)).2 =
+      (List.range k).map (fun i => ItOut.item (Bitmap.elems b)[i]?) ∧
+    (Iter.run (Bitmap.iter b) (List.replicate k .next)).1.rem = (Bitmap.elems b).drop k := by
+  obtain ⟨h1, h2⟩ := C03_init b h
+  obtain ⟨_, r1, r2⟩ := C03_history (List.replicate k .next) _ h1
+  rw [h2, Cursor.run_next] at r1 r2
+  exact ⟨r2, r1⟩
+
+/-- **back drain.** `k` calls of `next_back` on `iter()` yield the `k` largest elements in descending order
+    (and `None` from then on); what remains is the front part of the element list — so an element taken from
+    one end is never seen from the other. -/
+theorem C03_drain_back (b : Bitmap) (h : BitmapOK b) (k : Nat) :
+    (Iter.run (Bitmap.iter b) (List.replicate k .nextBack)).2 =
+      (List.range k).map (fun i => ItOut.item (Bitmap.elems b).reverse[i]?) ∧
+    (Iter.run (Bitmap.iter b) (List.replicate k .nextBack)).1.rem =
+      (Bitmap.elems b).take ((Bitmap.elems b).length - k) := by
+  obtain ⟨h1, h2⟩ := C03_init b h
+  obtain ⟨_, r1, r2⟩ := C03_history (List.replicate k .nextBack) _ h1
+  rw [h2, Cursor.run_nextBack] at r1 r2
+  exact ⟨r2, r1⟩
 
 /-- **fused.** Once exhausted, every call keeps the cursor exhausted and yields `None` / `(0, Some(0))` / 0. -/
 theorem C03_fused (it : Iter) (h : IterWF it) (he : it.rem = []) (op : ItOp) :
